@@ -376,8 +376,8 @@ theorem pybeqList_canon : ∀ (a b : List PyVal), PyVal.beqList a b = Val.beqLis
 end
 
 mutual
-theorem pyhash_respects (H : PyHasher) (hfi : ∀ n : Int, H.float n = H.int n) :
-    ∀ (a b : PyVal), PyVal.beq a b = true → pyHash H a = pyHash H b
+theorem pyhash_respects (hf : String → Option (List String)) (H : PyHasher) (hfi : ∀ n : Int, H.float n = H.int n) :
+    ∀ (a b : PyVal), PyVal.beq a b = true → pyHash hf H a = pyHash hf H b
   | .none, b => by cases b <;> simp [PyVal.beq, pyHash]
   | .bool x, b => by
     cases b <;> simp [PyVal.beq, pyHash]
@@ -396,21 +396,21 @@ theorem pyhash_respects (H : PyHasher) (hfi : ∀ n : Int, H.float n = H.int n) 
   | .list xs, b => by cases b <;> simp [PyVal.beq, pyHash]
   | .tuple xs, b => by
     cases b <;> simp [PyVal.beq, pyHash]
-    intro h; rw [pyhashList_respects H hfi xs _ h]
+    intro h; rw [pyhashList_respects hf H hfi xs _ h]
   | .obj c n xs, b => by
     cases b <;> simp [PyVal.beq, pyHash]
     intro h1 h2 h3
     subst h1; subst h2
-    rw [pyhashList_respects H hfi xs _ h3]
-theorem pyhashList_respects (H : PyHasher) (hfi : ∀ n : Int, H.float n = H.int n) :
-    ∀ (a b : List PyVal), PyVal.beqList a b = true → pyHashList H a = pyHashList H b
+    rw [pyhashList_respects hf H hfi xs _ h3]
+theorem pyhashList_respects (hf : String → Option (List String)) (H : PyHasher) (hfi : ∀ n : Int, H.float n = H.int n) :
+    ∀ (a b : List PyVal), PyVal.beqList a b = true → pyHashList hf H a = pyHashList hf H b
   | [], b => by cases b <;> simp [PyVal.beqList, pyHashList]
   | x :: xs, b => by
     cases b with
     | nil => simp [PyVal.beqList]
     | cons y ys =>
       simp only [PyVal.beqList, Bool.and_eq_true, pyHashList, List.cons.injEq]
-      exact fun ⟨h1, h2⟩ => ⟨pyhash_respects H hfi x y h1, pyhashList_respects H hfi xs ys h2⟩
+      exact fun ⟨h1, h2⟩ => ⟨pyhash_respects hf H hfi x y h1, pyhashList_respects hf H hfi xs ys h2⟩
 end
 
 
